@@ -376,19 +376,29 @@ func c06Installed(p *Program, r *Report) {
 	// NewAuthReader: sha256-hex unless special payload
 	af := p.Func(utilsPkg + ".NewAuthReader")
 	okSha := false
-	for _, c := range callsTo(af, utilsPkg+".NewHashReader") {
-		if ht, _ := constString(callArgs(c)[2]); ht == "sha256-hex" {
-			// reachable only on the !IsSpecialPayload edge
-			var cutS []edge
-			for _, ce := range condEdgesOf(af) {
-				if cc, ok := ce.cond.(*ssa.Call); ok && calleeName(cc) == utilsPkg+".IsSpecialPayload" {
-					cutS = append(cutS, ce.fails)
-				}
-			}
-			if len(cutS) > 0 && !reachable(af, nil, cutS)[c.Block()] {
-				okSha = true
+	{
+		// every hash type other than sha256-hex reaches NewHashReader only behind the IsSpecialPayload edge
+		var special []edge
+		for _, ce := range condEdgesOf(af) {
+			if cc, ok := ce.cond.(*ssa.Call); ok && calleeName(cc) == utilsPkg+".IsSpecialPayload" {
+				special = append(special, ce.holds)
 			}
 		}
+		sha, other := 0, 0
+		for _, c := range callsTo(af, utilsPkg+".NewHashReader") {
+			for _, lf := range valueLeaves(callArgs(c)[2], c.Block()) {
+				if ht, isC := constString(lf.val); isC && ht == "sha256-hex" {
+					if !leafOnlyBehind(af, lf, special) {
+						sha++ // the ordinary path gets sha256
+					}
+					continue
+				}
+				if !leafOnlyBehind(af, lf, special) {
+					other++
+				}
+			}
+		}
+		okSha = len(special) > 0 && sha > 0 && other == 0
 	}
 	r.Check(okSha, "R-C06-3", fnName(af)+"/sha256-reader", p.Pos(af.Pos()), "non-special payloads are hashed with sha256", "NewAuthReader no longer hashes ordinary payloads with sha256: X-Amz-Content-Sha256 is not verified for streamed uploads")
 	// validateSignature compares the hash on the non-special edge and the mismatch edge returns an error
@@ -583,7 +593,7 @@ func controlsC06() []Control {
 // ================================ C12 ================================
 
 func runC12(p *Program, r *Report) {
-	r.Rule("R-C12-1", "end-of-stream only in state Verified: the signed reader returns its literal io.EOF only through the success edges of checkSignature (final chunk) and, when a trailer is expected, of verifyChecksum and verifyTrailerSignature; the unsigned reader only through readTrailer success, whose nil return comes from validateChecksum; an early end of the inner stream (inner io.EOF while chunk data or the final chunk is missing) is never passed on as a clean io.EOF", 8)
+	r.Rule("R-C12-1", "end-of-stream only in state Verified: the signed reader returns its literal io.EOF only through the success edges of checkSignature (final chunk) and, when a trailer is expected, of verifyChecksum and verifyTrailerSignature; the unsigned reader only behind the accepting edge of the comparison of the computed (hash.Hash.Sum) with the announced trailing checksum, wherever Read and its helpers make it; an early end of the inner stream (inner io.EOF while chunk data or the final chunk is missing) is never passed on as a clean io.EOF", 8)
 	r.Rule("R-C12-2", "no synthetic EOF that hides the inner verdict (literal io.EOF only after the inner reader reached its end): shared with R-C02-5", 2)
 	r.Rule("R-C12-3", "reader selection is total: NewChunkReader's switch covers every payload type for which IsStreamingPayload is true, its default arm returns an error, every streaming payload type is a special payload, and chunk sizes are parsed as non-negative", 6)
 	r.Rule("R-C12-4", "decoding state never aliases the caller's buffer: no method of the chunk readers stores a slice of a caller-provided []byte into a field of the reader (the caller reuses its buffer between reads)", 4)
@@ -640,60 +650,59 @@ func runC12(p *Program, r *Report) {
 		}
 		r.Check(ok, "R-C12-1", fnName(pf)+"/final-chunk-signature", p.Pos(pf.Pos()), "final chunk's own signature is checked", "the final (zero sized) chunk's signature is not verified")
 	}
-	// R-C12-1 unsigned
+	// R-C12-1 unsigned. Name-free: the trailer verdict is the comparison of the sum of the bytes seen
+	// (hash.Hash.Sum) with a string, wherever Read and its helpers make it; Read's literal io.EOF lies behind its
+	// accepting edge (directly or through helpers that succeed only through it), and its refusing edge reaches no
+	// successful return.
 	uf := p.Func(unsigned + "Read")
-	rt := callsTo(uf, unsigned+"readTrailer")
-	ulit := literalEOFSites(uf)
-	var cutU []edge
-	for _, c := range rt {
-		cutU = append(cutU, successEdges(c)...)
+	isTrailerVerdict := func(_ *ssa.Function, ce condEdge) bool {
+		if !ce.isEqNeq || ce.binop == nil || !ce.atoms["call:(hash.Hash).Sum"] {
+			return false
+		}
+		bt, ok := ce.binop.X.Type().Underlying().(*types.Basic)
+		return ok && bt.Info()&types.IsString != 0
 	}
+	inUnit := staticCallees(p, uf)
+	var unit []*ssa.Function
+	for _, g := range p.FuncsIn(utilsPkg) {
+		if inUnit[fnName(g)] {
+			unit = append(unit, g)
+		}
+	}
+	vsU := verdictClosure(unit, isTrailerVerdict)
+	cutU, _ := vsU.cutsIn(uf, isTrailerVerdict)
+	ulit := literalEOFSites(uf)
 	for i, s := range ulit {
-		r.Check(len(cutU) > 0 && !siteReachable(uf, s, cutU), "R-C12-1", fnName(uf)+"/EOF#"+itoa(i+1)+"<-readTrailer", p.Pos(s.ret.Pos()), "io.EOF only after readTrailer succeeded", "the unsigned chunk reader can report a clean end of stream without a successfully validated trailer")
+		r.Check(len(cutU) > 0 && !siteReachable(uf, s, cutU), "R-C12-1", fnName(uf)+"/EOF#"+itoa(i+1)+"<-trailer-verdict", p.Pos(s.ret.Pos()), "io.EOF only after the trailing checksum compared equal", "the unsigned chunk reader can report a clean end of stream without a successfully validated trailer (no path condition ties io.EOF to the comparison of the computed with the announced checksum)")
 	}
 	if len(ulit) == 0 {
 		r.Viol("R-C12-1", fnName(uf)+"/literal-EOF", p.Pos(uf.Pos()), "no literal io.EOF return in UnsignedChunkReader.Read (anchor drift)")
 	}
-	tf := p.Func(unsigned + "readTrailer")
-	okV := true
-	nNil := 0
-	for _, s := range errReturnSites(tf) {
-		if isNilConst(s.val) {
-			nNil++
-			// a constant nil return must be behind validateChecksum success
-			var cut []edge
-			for _, c := range callsTo(tf, unsigned+"validateChecksum") {
-				cut = append(cut, successEdges(c)...)
+	nCmp := 0
+	for _, g := range unit {
+		for _, ce := range condEdgesOf(g) {
+			if !isTrailerVerdict(g, ce) {
+				continue
 			}
-			if len(cut) == 0 || siteReachable(tf, s, cut) {
-				okV = false
-			}
-		}
-	}
-	direct := false
-	for _, s := range errReturnSites(tf) {
-		for _, o := range Origins(s.val, nil) {
-			if o.Kind == "call" && o.Desc == unsigned+"validateChecksum" {
-				direct = true
-			}
-		}
-	}
-	r.Check(okV && (direct || nNil > 0), "R-C12-1", fnName(tf)+"/nil<-validateChecksum", p.Pos(tf.Pos()), "trailer accepted only when the checksum validated", "readTrailer can succeed without validateChecksum having succeeded")
-	vf := p.Func(unsigned + "validateChecksum")
-	okM := false
-	for _, ce := range condEdgesOf(vf) {
-		if ce.isEqNeq && ce.atoms["field:expectedChecksum"] {
-			reach := reachableFromEdge(vf, ce.fails, nil)
+			nCmp++
+			reach := reachableFromEdge(g, ce.fails, nil)
 			bad := false
-			for _, s := range errReturnSites(vf) {
+			for _, s := range errReturnSites(g) {
 				if s.reachedIn(reach) && isNilConst(s.val) {
 					bad = true
 				}
 			}
-			okM = !bad
+			for _, s := range literalEOFSites(g) {
+				if s.reachedIn(reach) {
+					bad = true
+				}
+			}
+			r.Check(!bad, "R-C12-1", "utils.UnsignedChunkReader/trailer-checksum#"+itoa(nCmp)+":mismatch-fails", p.Pos(ce.pos()), "trailing checksum mismatch is an error", "a trailing checksum mismatch does not fail the stream")
 		}
 	}
-	r.Check(okM, "R-C12-1", fnName(vf)+"/mismatch-fails", p.Pos(vf.Pos()), "trailing checksum mismatch is an error", "a trailing checksum mismatch does not fail the stream")
+	if nCmp == 0 {
+		r.Viol("R-C12-1", "utils.UnsignedChunkReader/trailer-checksum", p.Pos(uf.Pos()), "the unsigned chunk reader never compares the computed checksum (hash.Hash.Sum) with the announced one")
+	}
 	// early end of the inner stream is not a clean EOF
 	c12InnerEOF(p, r, p.Func(signed+"Read"), "r")
 	c12InnerEOF(p, r, uf, "reader")
@@ -884,7 +893,12 @@ func runC12(p *Program, r *Report) {
 	cf := p.Func(signed + "checkSignature")
 	okMis := false
 	for _, ce := range condEdgesOf(cf) {
-		if ce.isEqNeq && ce.atoms["field:prevSig"] && ce.atoms["field:parsedSig"] {
+		// the computed signature (kept in prevSig for the next chunk) against the one parsed from the header
+		computed := ce.atoms["field:prevSig"]
+		if ce.binop != nil && !computed {
+			computed = storedToField(cf, ce.binop.X, "prevSig") || storedToField(cf, ce.binop.Y, "prevSig")
+		}
+		if ce.isEqNeq && computed && ce.atoms["field:parsedSig"] {
 			reach := reachableFromEdge(cf, ce.fails, nil)
 			bad := false
 			for _, s := range errReturnSites(cf) {
@@ -1100,6 +1114,10 @@ func controlsC12() []Control {
 			Old: "\t\t\terr = cr.verifyTrailerSignature()\n\t\t\tif err != nil {\n\t\t\t\treturn 0, err\n\t\t\t}\n", New: "", Expect: "verifyTrailerSignature"},
 		{Name: "revert fix a257669 (signed): inner EOF passed through", Rule: "R-C12-1", File: "s3api/utils/signed-chunk-reader.go",
 			Old: "\tif err == io.EOF {\n\t\t// the stream ended before the final (zero sized) chunk\n\t\treturn n, io.ErrUnexpectedEOF\n\t}\n", New: "", Expect: "inner-eof-passed"},
+		{Name: "unsigned reader: trailing checksum mismatch only logged", Rule: "R-C12-1", File: "s3api/utils/unsigned-chunk-reader.go",
+			Old: "\tif checksum != ucr.expectedChecksum {\n\t\treturn fmt.Errorf(", New: "\tif checksum != ucr.expectedChecksum && ucr.expectedChecksum != \"\" {\n\t\treturn fmt.Errorf(", Expect: "mismatch-fails"},
+		{Name: "unsigned reader: trailer verdict dropped", Rule: "R-C12-1", File: "s3api/utils/unsigned-chunk-reader.go",
+			Old: "\treturn ucr.validateChecksum()\n", New: "\t_ = ucr.validateChecksum()\n\treturn nil\n", Expect: "trailer-verdict"},
 		{Name: "revert fix a257669 (unsigned): CopyN EOF unmapped", Rule: "R-C12-1", File: "s3api/utils/unsigned-chunk-reader.go",
 			Old: "\t\t\tif err == io.EOF {\n\t\t\t\t// the stream ended inside the chunk\n\t\t\t\treturn 0, io.ErrUnexpectedEOF\n\t\t\t}\n", New: "", Expect: "inner-eof-passed"},
 		{Name: "revert fix a257669 (signed): EOF without draining the inner reader", Rule: "R-C12-2", File: "s3api/utils/signed-chunk-reader.go",
